@@ -467,7 +467,8 @@ namespace xsimd
             template <typename ITy0, typename ITy1, typename... ITys>
             constexpr bool is_zip_lo(size_t bsize, ITy0 index0, ITy1 index1, ITys... indices)
             {
-                return index0 == (bsize - (sizeof...(indices) + 2)) && index1 == (2 * bsize - (sizeof...(indices) + 2)) && is_zip_lo(bsize, indices...);
+                // (index0, index1) is the pair at position bsize - (sizeof...(indices) + 2): zip_lo takes element position / 2 of each operand
+                return index0 == (bsize - (sizeof...(indices) + 2)) / 2 && index1 == bsize + (bsize - (sizeof...(indices) + 2)) / 2 && is_zip_lo(bsize, indices...);
             }
 
             constexpr bool is_zip_hi(size_t)
@@ -484,7 +485,7 @@ namespace xsimd
             template <typename ITy0, typename ITy1, typename... ITys>
             constexpr bool is_zip_hi(size_t bsize, ITy0 index0, ITy1 index1, ITys... indices)
             {
-                return index0 == (bsize / 2 + bsize - (sizeof...(indices) + 2)) && index1 == (bsize / 2 + 2 * bsize - (sizeof...(indices) + 2)) && is_zip_hi(bsize, indices...);
+                return index0 == bsize / 2 + (bsize - (sizeof...(indices) + 2)) / 2 && index1 == bsize + bsize / 2 + (bsize - (sizeof...(indices) + 2)) / 2 && is_zip_hi(bsize, indices...);
             }
 
             constexpr bool is_select(size_t)
@@ -517,12 +518,14 @@ namespace xsimd
                 return swizzle(y, batch_constant<ITy, A, ((Indices >= bsize) ? (Indices - bsize) : 0 /* never happens */)...>());
             }
 
-            XSIMD_IF_CONSTEXPR(detail::is_zip_lo(bsize, Indices...))
+            // zip_lo/zip_hi of 8 and 16 bit lanes are not implemented on every architecture (avx512f):
+            // those masks take the general path below
+            XSIMD_IF_CONSTEXPR(sizeof(T) >= 4 && detail::is_zip_lo(bsize, Indices...))
             {
                 return zip_lo(x, y);
             }
 
-            XSIMD_IF_CONSTEXPR(detail::is_zip_hi(bsize, Indices...))
+            XSIMD_IF_CONSTEXPR(sizeof(T) >= 4 && detail::is_zip_hi(bsize, Indices...))
             {
                 return zip_hi(x, y);
             }
